@@ -552,7 +552,21 @@ def random_pairs(ctx, run: Runner, n):
         dup = len({ckey(c, None, is_inc(c)) for c in t1.cells}) != len(t1.cells)
         same = (not isinstance(res, BaseException)) and jc.canon_seq(res.cells) == jc.canon_seq(t1.cells)
         run.record({"t1": j1, "op": "merge_self"}, [] if same or dup else ["merge(t, t) is not t"], len(t1) >= 2)
+        # select-then-merge recombination: splitting the fields and merging the parts gives the cells back
+        fs1 = sorted({x for c in t1.cells for x in c.values})
+        if not dup and fs1:
+            fa, fb = fs1[::2], fs1[1::2]
+            res = call(lambda: t1.select(fa).merge(t1.select(fb)))
+            run.record({"t1": j1, "op": "select_merge", "fa": fa, "fb": fb}, oracle_select_merge(t1, res), len(t1) >= 2)
     cs.hold = False
+
+
+def oracle_select_merge(t, res):
+    if isinstance(res, BaseException):
+        return [f"select/merge raised {type(res).__name__}: {res}"]
+    if ct.canon_tri(res) != ct.canon_tri(t):        # field order inside a cell is not compared here
+        return ["t.select(A).merge(t.select(B)) with A, B a split of the fields is not t"]
+    return []
 
 
 def directed(ctx, run: Runner):
@@ -739,6 +753,9 @@ def replay(ctx, data):
         res = call(lambda: t1.merge(t1))
         probs = [] if (not isinstance(res, BaseException)) and jc.canon_seq(res.cells) == jc.canon_seq(t1.cells) \
             else ["merge(t, t) is not t"]
+    elif op == "select_merge":
+        res = call(lambda: t1.select(data["fa"]).merge(t1.select(data["fb"])))
+        probs = oracle_select_merge(t1, res)
     elif op == "coalesce":
         ts = [jc.tri_from_json(j) for j in data["ts"]]
         res = call(lambda: ts[0].coalesce(ts[1:]))
